@@ -139,6 +139,7 @@ Fixpoint run_seg (fuel : nat) (sm : sem) (thr : Z) (ps : list gstmt) : list fram
     | GEcho :: _ => ([], thr, StStuck "echo")
     | GSwitch _ _ :: _ => ([], thr, StStuck "switch")
     | GLoopN _ _ :: _ => ([], thr, StStuck "loopn")
+    | GFor _ _ :: _ => ([], thr, StStuck "for")
     | GBranch _ :: _ => ([], thr, StStuck "branch")
     | GOpaque :: _ => ([], thr, StUnmodelled)
     end
